@@ -2,7 +2,7 @@ PROP = {
     "id": "C28",
     "coq_targets": ["Properties/C28.vo", "Extract/C28Extract.vo"],
     "properties_file": "Properties/C28.v",
-    "theorems": ["C28_mirror_partial", "C28_mirror_refuted", "C28_nothing_remains", "C28_observers_follow", "C28_observers_disposed"],
+    "theorems": ["C28_mirror_partial", "C28_mirror_refuted", "C28_mirror_hidden_refuted", "C28_nothing_remains", "C28_observers_follow", "C28_observers_disposed"],
     "allowed_axioms": [],
     "harness": "c28",
     "modelrun": {"name": "c28", "extracted": ["c28_model"], "driver": "ocaml/c27/c27_run.ml"},
@@ -10,7 +10,7 @@ PROP = {
     "search_cases": 6000,
     "rule": "well-formed BMP histories of 5-25 actions over 3 peers (IPv4/IPv6 peer addresses, eBGP/iBGP, 2/4 octet AS, "
             "add-path per family, the same address in both VRFs) and 2 VRFs: initiation, peer up, route monitoring "
-            "(pre/post policy, IPv4 and IPv6 unicast, announce/withdraw, path ids), statistics, peer down, termination, loss "
+            "(pre/post policy, IPv4 and IPv6 unicast, announce/withdraw, path ids; attribute patterns: own AS / peer AS in AS_PATH, CLUSTER_LIST, ORIGINATOR_ID, OTC, well-known communities, odd next hops, empty AS_PATH), statistics, peer down, termination, loss "
             "of the connection and reconnect, observers registering on the VRFs' Loc-RIBs; configurations with "
             "IgnorePrePolicy / IgnorePostPolicy / IgnorePeerASNs; a case is non-trivial when routes are installed and later "
             "flushed by a peer down, a termination or a connection loss; distinct = distinct action sequences",
@@ -26,5 +26,5 @@ PROP = {
         "single-threaded histories (serve processes one message at a time)",
     ],
     "assumptions": ["well-formed histories as defined by Spec/BMPMirrorSpec.v: wf", "no IgnorePeerASNs in the theorems (exercised by the harness)",
-                    "announced paths are eligible (non-empty AS_PATH on eBGP sessions, no loops)"],
+                    "theorem guard: announcements are not hidden by AdjRIBIn.validatePath on a BMP VRF (no eBGP path without AS_PATH, ORIGINATOR_ID != router id); the harness generates those too (known findings)"],
 }
